@@ -261,7 +261,12 @@ class ZMQEventLoop(EventLoop):
             if self._did_something and (not self._alarms or (self._alarms and timeout > 0)):
                 state = "idle"
                 timeout = 0
-            ready = dict(self._poller.poll(timeout * 1000))
+            if self._poller.sockets:
+                ready = dict(self._poller.poll(timeout * 1000))
+            else:
+                # zmq's poll() returns at once when nothing is registered: wait for the alarm ourselves
+                time.sleep(timeout)
+                ready = {}
         else:
             ready = dict(self._poller.poll())
 
